@@ -6,6 +6,12 @@ cd "$(dirname "$0")"
 export GOFLAGS=-mod=mod GOPROXY=off GOSUMDB=off GOTOOLCHAIN=local
 mkdir -p bin evidence replays
 (cd sim && go build -o ../bin/simrewrite ./cmd/simrewrite)
-# warm-up: a throw-away quick run of the cheapest check builds everything once
+# warm-up: throw-away runs that compile everything the checks share (race-enabled standard library with the Pool
+# overlay, goa's dependencies, the engines, the design tools) INTO the main build cache; the checks themselves
+# build into private hard-link copies of it (orch.private_gocache) and leave it as it is
+export VERIF_WARM=1 VERIF_EVIDENCE_DIR=/tmp/verif-warm-evidence VERIF_REPLAY_DIR=/tmp/verif-warm-replays
 VERIF_RUNS=32 ./check C16 quick >/dev/null 2>&1 || true
+VERIF_RUNS=64 VERIF_DESIGNS=4 ./check C02 quick >/dev/null 2>&1 || true
+VERIF_RUNS=64 VERIF_DESIGNS=4 ./check C20 quick >/dev/null 2>&1 || true
+rm -rf /tmp/verif-warm-evidence /tmp/verif-warm-replays
 echo setup ok
